@@ -22,6 +22,7 @@ RULES_DOC = dict(common.SHARED_DOC)
 RULES_DOC["R7"] = "= C12.R3: a unit that is suspending is never terminated inside its suspend callback (only yield-family callbacks may honour a cancel request)"
 RULES_DOC["R8"] = "the directed-yield entry points that document ABT_ERR_INV_THREAD for the caller itself reach their switch primitive only after an effective test that the target is not the caller (a unit that switches to itself is RUNNING and queued at once)"
 RULES_DOC["R9"] = "= C01.R5: a yield-family callback pushes the caller back iff it was not cancelled (a terminated unit is never re-queued)"
+RULES_DOC["X4"] = common.X4_DOC
 RULES_DOC.update({
     "R1": "= C02.R3: suspend callbacks publish BLOCKED before anything that lets a waker run",
     "R2": "resume: READY -> push -> un-count; ABT_thread_resume acts only on a unit observed BLOCKED (acquire)",
@@ -383,6 +384,7 @@ def rule_R8(P, rep):
 
 
 def run(P, rep, tier):
+    common.rule_X4(P, rep)
     common.run_shared(P, rep, which=("X1",))
     sub = type(rep)(rep.prop, rep.tier, rep.variant)
     C02.rule_R3(P, sub)
